@@ -76,8 +76,13 @@ type Case struct {
 	FindSucc bool          `json:"findsucc"` // FindSuccessors set (to a function calling content.Successors) instead of nil
 	MountAlways bool       `json:"mountalways"` // every candidate repository has the blob (Mount always succeeds)
 	PreTag   int           `json:"pretag"`   // -1, or a pre-populated node the destination reference already points to before the call
+	CancelAt int           `json:"cancelat"` // 0 none | -1 the caller's context is already ended when the call starts | -2 it ends when the
+	// source reference has been resolved (before the root task starts) | k>0 it ends right after the k-th recorded event
+	CancelDeadline bool    `json:"canceldeadline"` // the context ends by an expired deadline instead of cancel()
 	Slow     bool          `json:"slow"`     // storage latencies of 0.2-2 ms (contention on the limiter)
 	Fast     bool          `json:"fast"`     // latencies are yields only (no sleeps): the small-scope enumeration
+	Script   []int         `json:"script"`   // controlled schedule given as choices (index among the parked operations, ordered by label); beyond it: first
+	Enum     bool          `json:"enum"`     // schedule enumeration: choices beyond Script are 0, not PRNG
 	Sched    bool          `json:"sched"`    // run under testing/synctest with a PRNG-controlled scheduler
 	Thorough bool          `json:"thorough"` // generated with the thorough-tier size distribution
 	OneP     bool          `json:"onep"`     // run the call with GOMAXPROCS(1): a spawned goroutine starts only when its spawner blocks or yields,
@@ -103,6 +108,7 @@ type rec struct {
 	toks   []string
 	idx    map[dkeyT]int
 	quiet  atomic.Bool // prologue of Copy (MapRoot / platform selection): not part of the copy trace
+	refs   []string    // the reference strings given to dst.Tag / dst.PushReference
 	pro    []int       // nodes read from the source in Copy's prologue (resolveRoot's FetchReference, MapRoot /
 	// platform selection): outside the transition system, but inside "one copy call" for C04's counters
 	srcIn  int
@@ -112,6 +118,8 @@ type rec struct {
 	lmu    sync.Mutex
 	lat    *common.Rand
 	bytes  [][]byte // generator's bytes per node (what a successful mount makes available)
+	cancelAt int
+	cancel   func()
 	fast   bool
 	slow   bool
 	seed   uint64
@@ -137,6 +145,10 @@ func (r *rec) ev(tok string, dsrc, ddst int) {
 	r.mu.Lock()
 	if tok != "" {
 		r.toks = append(r.toks, tok)
+		if r.cancelAt > 0 && len(r.toks) == r.cancelAt && r.cancel != nil && !strings.HasPrefix(tok, "RT.") {
+			r.toks = append(r.toks, "CX") // the caller's context ends here
+			r.cancel()
+		}
 	}
 	r.srcIn += dsrc
 	r.dstIn += ddst
@@ -169,10 +181,32 @@ func (r *rec) freePermits() int {
 	return f
 }
 
+// cancelAfterResolve ends the caller's context when the source reference has just been resolved.
+func (r *rec) cancelAfterResolve() {
+	r.mu.Lock()
+	if r.cancelAt == -2 && r.cancel != nil {
+		r.cancelAt = 0
+		r.toks = append(r.toks, "CX")
+		r.cancel()
+	}
+	r.mu.Unlock()
+}
+
+// delayL is delay with a label naming the place (call site and node): under controlled schedules the
+// parked operations are ordered by label, so that a schedule (a list of choices) means the same thing in
+// every run of the case.
+func (r *rec) delayL(label string) {
+	if r.sched != nil {
+		r.sched.yieldL(label)
+		return
+	}
+	r.delay()
+}
+
 // delay varies the interleaving: nothing, yields, or a short sleep.
 func (r *rec) delay() {
 	if r.sched != nil {
-		r.sched.yield()
+		r.sched.yieldL("")
 		return
 	}
 	r.lmu.Lock()
@@ -227,6 +261,7 @@ func (c *closeRec) Close() error {
 }
 
 func (s *srcW) Fetch(ctx context.Context, d ocispec.Descriptor) (io.ReadCloser, error) {
+	ctx = context.WithoutCancel(ctx) // the stores do not see the caller's cancellation: only the copy's own control flow does
 	if s.r.quiet.Load() {
 		s.r.mu.Lock()
 		s.r.pro = append(s.r.pro, s.r.node(d))
@@ -235,16 +270,16 @@ func (s *srcW) Fetch(ctx context.Context, d ocispec.Descriptor) (io.ReadCloser, 
 	}
 	n := s.r.node(d)
 	s.r.ev(fmt.Sprintf("SB.%d", n), 1, 0)
-	s.r.delay()
+	s.r.delayL(fmt.Sprintf("01.%d", n))
 	rc, err := s.under.Fetch(ctx, d)
 	if err != nil {
 		s.r.ev(fmt.Sprintf("SX.%d", n), -1, 0) // not in the model's alphabet: fails the correspondence
 		return nil, err
 	}
-	s.r.delay()
+	s.r.delayL(fmt.Sprintf("02.%d", n))
 	s.r.ev(fmt.Sprintf("SE.%d", n), 0, 0)
 	return &closeRec{Reader: rc, c: rc, f: func() {
-		s.r.delay()
+		s.r.delayL(fmt.Sprintf("03.%d", n))
 		s.r.ev(fmt.Sprintf("SC.%d", n), -1, 0)
 	}}, nil
 }
@@ -254,7 +289,9 @@ func (s *srcW) Exists(ctx context.Context, d ocispec.Descriptor) (bool, error) {
 }
 
 func (s *srcW) Resolve(ctx context.Context, ref string) (ocispec.Descriptor, error) {
-	return s.under.Resolve(ctx, ref)
+	d, err := s.under.Resolve(context.WithoutCancel(ctx), ref)
+	s.r.cancelAfterResolve()
+	return d, err
 }
 
 // srcWG additionally implements content.PredecessorFinder (ExtendedCopy needs a graph source).
@@ -268,6 +305,8 @@ func (s srcWG) Predecessors(ctx context.Context, d ocispec.Descriptor) ([]ocispe
 type srcWRef struct{ *srcW }
 
 func (s srcWRef) FetchReference(ctx context.Context, ref string) (ocispec.Descriptor, io.ReadCloser, error) {
+	ctx = context.WithoutCancel(ctx)
+	defer s.r.cancelAfterResolve()
 	note := func(d ocispec.Descriptor) {
 		s.r.mu.Lock()
 		s.r.pro = append(s.r.pro, s.r.node(d)) // a source read of the root, in the prologue
@@ -319,12 +358,13 @@ func (d *dstW) Fetch(ctx context.Context, t ocispec.Descriptor) (io.ReadCloser, 
 }
 
 func (d *dstW) Exists(ctx context.Context, t ocispec.Descriptor) (bool, error) {
+	ctx = context.WithoutCancel(ctx)
 	n := d.r.node(t)
 	defer d.lockDigest(t)()
 	d.r.ev(fmt.Sprintf("XB.%d", n), 0, 1)
-	d.r.delay()
+	d.r.delayL(fmt.Sprintf("04.%d", n))
 	ok, err := d.under.Exists(ctx, t)
-	d.r.delay()
+	d.r.delayL(fmt.Sprintf("05.%d", n))
 	if err != nil {
 		d.r.ev(fmt.Sprintf("XX.%d", n), 0, -1)
 		return ok, err
@@ -338,6 +378,12 @@ func (d *dstW) Exists(ctx context.Context, t ocispec.Descriptor) (bool, error) {
 }
 
 func (d *dstW) push(ctx context.Context, t ocispec.Descriptor, rd io.Reader, ref string) error {
+	ctx = context.WithoutCancel(ctx)
+	if ref != "" {
+		d.r.mu.Lock()
+		d.r.refs = append(d.r.refs, ref)
+		d.r.mu.Unlock()
+	}
 	n := d.r.node(t)
 	isRef := 0
 	if ref != "" {
@@ -345,7 +391,7 @@ func (d *dstW) push(ctx context.Context, t ocispec.Descriptor, rd io.Reader, ref
 	}
 	defer d.lockDigest(t)()
 	d.r.ev(fmt.Sprintf("PB.%d.%d", n, isRef), 0, 1)
-	d.r.delay()
+	d.r.delayL(fmt.Sprintf("06.%d", n))
 	// "x" = the content was already there (ErrAlreadyExists, or an idempotent success as registries
 	// answer); "k" = this push stored it
 	had, _ := d.under.Exists(ctx, t)
@@ -366,7 +412,7 @@ func (d *dstW) push(ctx context.Context, t ocispec.Descriptor, rd io.Reader, ref
 			err, res = terr, "e"
 		}
 	}
-	d.r.delay()
+	d.r.delayL(fmt.Sprintf("07.%d", n))
 	d.r.ev(fmt.Sprintf("PE.%d.%d.%s", n, isRef, res), 0, -1)
 	return err
 }
@@ -376,11 +422,15 @@ func (d *dstW) Push(ctx context.Context, t ocispec.Descriptor, rd io.Reader) err
 }
 
 func (d *dstW) Tag(ctx context.Context, t ocispec.Descriptor, ref string) error {
+	ctx = context.WithoutCancel(ctx)
+	d.r.mu.Lock()
+	d.r.refs = append(d.r.refs, ref)
+	d.r.mu.Unlock()
 	n := d.r.node(t)
 	d.r.ev(fmt.Sprintf("TB.%d", n), 0, 1)
-	d.r.delay()
+	d.r.delayL(fmt.Sprintf("08.%d", n))
 	err := d.under.Tag(ctx, t, ref)
-	d.r.delay()
+	d.r.delayL(fmt.Sprintf("09.%d", n))
 	if err != nil {
 		d.r.ev(fmt.Sprintf("TX.%d", n), 0, -1)
 		return err
@@ -398,9 +448,10 @@ func (d *dstW) Resolve(ctx context.Context, ref string) (ocispec.Descriptor, err
 // source read) or the content is requested through getContent and uploaded, as
 // remote.Repository does after a 202 answer.
 func (d *dstW) mount(ctx context.Context, t ocispec.Descriptor, fromRepo string, getContent func() (io.ReadCloser, error)) error {
+	ctx = context.WithoutCancel(ctx)
 	n := d.r.node(t) // no digest lock here: getContent re-enters the wrappers; mount cases have no twins
 	d.r.ev(fmt.Sprintf("MB.%d", n), 0, 1)
-	d.r.delay()
+	d.r.delayL(fmt.Sprintf("10.%d", n))
 	if m, ok := d.under.(registry.Mounter); ok {
 		// a real Mounter (remote.Repository): the registry decides; observe what happened
 		called, cerr := false, error(nil)
@@ -410,7 +461,7 @@ func (d *dstW) mount(ctx context.Context, t ocispec.Descriptor, fromRepo string,
 			cerr = e
 			return rc, e
 		})
-		d.r.delay()
+		d.r.delayL(fmt.Sprintf("11.%d", n))
 		switch {
 		case !called && err == nil:
 			d.r.ev(fmt.Sprintf("ME.%d.m", n), 0, -1)
@@ -432,7 +483,7 @@ func (d *dstW) mount(ctx context.Context, t ocispec.Descriptor, fromRepo string,
 			d.r.ev(fmt.Sprintf("ME.%d.e", n), 0, -1)
 			return err
 		}
-		d.r.delay()
+		d.r.delayL(fmt.Sprintf("12.%d", n))
 		d.r.ev(fmt.Sprintf("ME.%d.m", n), 0, -1)
 		return nil
 	}
@@ -447,7 +498,7 @@ func (d *dstW) mount(ctx context.Context, t ocispec.Descriptor, fromRepo string,
 	}
 	err = d.under.Push(ctx, t, rc)
 	rc.Close()
-	d.r.delay()
+	d.r.delayL(fmt.Sprintf("13.%d", n))
 	if err != nil {
 		d.r.ev(fmt.Sprintf("ME.%d.e", n), 0, -1)
 		return err
@@ -519,7 +570,9 @@ type Result struct {
 	TagNode  int    // node the effective destination reference resolves to (-1 none, -2 unknown descriptor)
 	SrcMax   int
 	DstMax   int
+	Widths, Taken []int // controlled schedule: number of parked operations at each step, and the choice made
 	ExtraTag bool  // the source reference also resolves in the destination although a different destination reference was given
+	Refs     []string // reference strings given to dst.Tag / dst.PushReference
 	Pro      []int // nodes read from the source in the prologue
 	Keff     int
 	Root2    int // the root after MapRoot / platform selection (ground truth), -1 if the prologue must fail
@@ -742,7 +795,7 @@ func Execute(c *Case) *Result {
 			return nil
 		}
 	}
-	r := &rec{idx: map[dkeyT]int{}, lat: common.NewRand(c.Seed), fast: c.Fast, slow: c.Slow, seed: c.Seed, always: c.MountAlways, onep: c.OneP}
+	r := &rec{idx: map[dkeyT]int{}, lat: common.NewRand(c.Seed), cancelAt: c.CancelAt, fast: c.Fast, slow: c.Slow, seed: c.Seed, always: c.MountAlways, onep: c.OneP}
 	for _, n := range g.Nodes {
 		if _, dup := r.idx[keyOf(n.Desc)]; dup {
 			res.SetupErr = fmt.Errorf("generator produced two nodes with the same descriptor (node %d)", n.ID)
@@ -759,11 +812,11 @@ func Execute(c *Case) *Result {
 			n := r.node(d)
 			if c.FailCb == kind && c.FailNode == n {
 				r.ev(fmt.Sprintf("CF.%s.%d", kind, n), 0, 0)
-				r.delay()
+				r.delayL(fmt.Sprintf("14.%d", n))
 				return errInjected
 			}
 			r.ev(fmt.Sprintf("CB.%s.%d", kind, n), 0, 0)
-			r.delay()
+			r.delayL(fmt.Sprintf("15.%d", n))
 			return nil
 		}
 	}
@@ -788,7 +841,7 @@ func Execute(c *Case) *Result {
 				return nil, errInjected
 			}
 			r.ev(fmt.Sprintf("CB.mountfrom.%d", n), 0, 0)
-			r.delay()
+			r.delayL(fmt.Sprintf("16.%d", n))
 			if !c.Mount {
 				return nil, nil
 			}
@@ -814,13 +867,29 @@ func Execute(c *Case) *Result {
 	}
 
 	runCopy := func() {
+		// the context given to Copy / CopyGraph (created here: under synctest it must belong to the bubble);
+		// ctx stays alive for setup and observation
+		callCtx, cancelCall := context.WithCancel(ctx)
+		defer cancelCall()
+		if c.CancelAt == -1 && c.CancelDeadline {
+			var cf context.CancelFunc
+			callCtx, cf = context.WithDeadline(ctx, time.Now().Add(-time.Second))
+			defer cf()
+		}
+		r.mu.Lock()
+		r.cancel = cancelCall
+		if c.CancelAt == -1 {
+			r.toks = append(r.toks, "CX")
+			cancelCall()
+		}
+		r.mu.Unlock()
 		switch c.Mode {
 		case "x", "X":
 			xo := oras.ExtendedCopyOptions{ExtendedCopyGraphOptions: oras.ExtendedCopyGraphOptions{CopyGraphOptions: gopts}}
 			if c.Mode == "x" {
-				res.Err = oras.ExtendedCopyGraph(ctx, srcWG{sw}, dw, g.Nodes[c.Root].Desc, xo.ExtendedCopyGraphOptions)
+				res.Err = oras.ExtendedCopyGraph(callCtx, srcWG{sw}, dw, g.Nodes[c.Root].Desc, xo.ExtendedCopyGraphOptions)
 			} else {
-				res.Returned, res.Err = oras.ExtendedCopy(ctx, srcWG{sw}, c.SrcRef, dw, c.DstRef, xo)
+				res.Returned, res.Err = oras.ExtendedCopy(callCtx, srcWG{sw}, c.SrcRef, dw, c.DstRef, xo)
 			}
 		case "g":
 			var d content.Storage = dw
@@ -832,10 +901,10 @@ func Execute(c *Case) *Result {
 				r.mu.Lock()
 				r.lim, r.limK = semaphore.NewWeighted(int64(res.Keff)), res.Keff
 				r.mu.Unlock()
-				res.Err = oras.VerifCopyGraphWithLimiter(ctx, sw, d, g.Nodes[c.Root].Desc, r.lim, gopts)
+				res.Err = oras.VerifCopyGraphWithLimiter(callCtx, sw, d, g.Nodes[c.Root].Desc, r.lim, gopts)
 				break
 			}
-			res.Err = oras.CopyGraph(ctx, sw, d, g.Nodes[c.Root].Desc, gopts)
+			res.Err = oras.CopyGraph(callCtx, sw, d, g.Nodes[c.Root].Desc, gopts)
 		default:
 			opts := oras.CopyOptions{CopyGraphOptions: gopts}
 			if c.MapRoot >= 0 {
@@ -871,11 +940,11 @@ func Execute(c *Case) *Result {
 			case c.Mount:
 				d = dstWMount{dw}
 			}
-			res.Returned, res.Err = oras.Copy(ctx, s, c.SrcRef, d, c.DstRef, opts)
+			res.Returned, res.Err = oras.Copy(callCtx, s, c.SrcRef, d, c.DstRef, opts)
 		}
 	}
 	if c.Sched && T != nil { // (the plain binary has no testing.T: free-running instead)
-		r.sched = &sched{rng: common.NewRand(c.Seed ^ 0x5ced)}
+		r.sched = &sched{rng: common.NewRand(c.Seed ^ 0x5ced), script: c.Script, enum: c.Enum}
 		if !runScheduled(r.sched, runCopy) {
 			res.Hang = true
 			r.mu.Lock()
@@ -894,7 +963,7 @@ func Execute(c *Case) *Result {
 		}()
 		select {
 		case <-done:
-		case <-time.After(40 * time.Second):
+		case <-time.After(20 * time.Second):
 			res.Hang = true
 			r.mu.Lock()
 			res.Toks = append([]string(nil), r.toks...)
@@ -912,6 +981,10 @@ func Execute(c *Case) *Result {
 	}
 	res.Toks = r.toks
 	res.Pro = r.pro
+	res.Refs = r.refs
+	if r.sched != nil {
+		res.Widths, res.Taken = r.sched.widths, r.sched.taken
+	}
 	res.SrcMax, res.DstMax = r.srcMax, r.dstMax
 
 	// observe the destination (underlying store, not the wrapper)
@@ -1021,12 +1094,185 @@ func ModelInput(res *Result) string {
 		mode += "m"
 	}
 	mode += "/" + c.cbBits()
-	pre := ""
+	pre := linksField(g) + prologueField(res) + rflField(g) + refsField(res)
 	if c.PreTag >= 0 && (c.Mode == "t" || c.Mode == "r") {
-		pre = fmt.Sprintf("pt=%d ", c.PreTag)
+		pre += fmt.Sprintf("pt=%d ", c.PreTag)
 	}
 	return fmt.Sprintf("%d %d %s %s %s %s %s %s %s%srp=%s:%d:%d:%d", len(g.Nodes), c.K, mode, rootField, ints(cached0),
 		strings.Join(nodes, ";"), ints(d0), tr, platformField(c, g), pre, c.Stream, c.GenSeed, b2i(c.Thorough), c.Seed)
+}
+
+// prologueField renders Copy's prologue for the in-Coq check of CopyTop.prologue_fetches /
+// cache_after_resolve: pr=<reffetch>:<root0>:<mapped>:<target kind n|l|i|o>:<config node|->:<config type ok>:
+// <root0 is manifest>:<root0 is empty>:<observed prologue reads, '+'-separated>
+func prologueField(res *Result) string {
+	c, g := res.Case, res.G
+	if c.Mode != "t" && c.Mode != "r" {
+		return ""
+	}
+	mapped := c.Root
+	if c.MapRoot >= 0 {
+		mapped = c.MapRoot
+	}
+	kind, cfg, ok := "n", "-", 0
+	cfgArch := "-"
+	if c.Platform != "" {
+		n := g.Nodes[mapped]
+		switch n.Kind {
+		case dag.KIndex, dag.KDockerL:
+			kind = "l"
+		case dag.KImage, dag.KDocker:
+			kind = "i"
+			cn := g.Nodes[n.Succ[0]]
+			if n.Subject >= 0 {
+				cn = g.Nodes[n.Succ[1]]
+			}
+			cfg = fmt.Sprint(cn.ID)
+			want := ocispec.MediaTypeImageConfig
+			if n.Kind == dag.KDocker {
+				want = dag.MTDockerConfig
+			}
+			ok = b2i(cn.Desc.MediaType == want)
+			var p ocispec.Platform
+			if json.NewDecoder(bytes.NewReader(cn.Bytes)).Decode(&p) == nil && p.OS == "linux" && archID[p.Architecture] > 0 {
+				cfgArch = fmt.Sprint(archID[p.Architecture])
+			}
+		default:
+			kind = "o"
+		}
+	}
+	obs := make([]string, len(res.Pro))
+	for i, x := range res.Pro {
+		obs[i] = fmt.Sprint(x)
+	}
+	o := strings.Join(obs, "+")
+	if o == "" {
+		o = "-"
+	}
+	r0 := g.Nodes[c.Root]
+	// for an image target: wanted architecture, the config's architecture, and what Copy selected (the node it
+	// returned; "-" = it failed before copying; "?" = not observable, the run failed later)
+	sel := "?"
+	if res.Err == nil {
+		sel = fmt.Sprint(res.Root2)
+		for _, n := range g.Nodes {
+			if n.Desc.Digest == res.Returned.Digest && n.Desc.MediaType == res.Returned.MediaType {
+				sel = fmt.Sprint(n.ID)
+			}
+		}
+	} else if len(res.Toks) == 1 {
+		sel = "-"
+	}
+	want := fmt.Sprintf("%d.%d.%d", archID[c.Platform], b2i(c.PlatVar != ""), b2i(c.PlatFeat != ""))
+	return fmt.Sprintf("pr=%d:%d:%d:%s:%s:%d:%d:%d:%s:%s:%s:%s ", b2i(c.RefFetch), c.Root, mapped, kind, cfg, ok, b2i(r0.IsManifest()), b2i(len(r0.Bytes) == 0), o, want, cfgArch, sel)
+}
+
+// refsField renders the source / destination reference of a Copy and every reference string the
+// destination was asked to set, for the in-Coq comparison with CopyTop.eff_ref:
+// rs=<hex srcRef>:<hex dstRef|->:<hex used ref>+...
+func refsField(res *Result) string {
+	c := res.Case
+	if (c.Mode != "t" && c.Mode != "r") || len(res.Refs) == 0 {
+		return ""
+	}
+	u := make([]string, len(res.Refs))
+	for i, x := range res.Refs {
+		u[i] = common.Hex(x)
+	}
+	return fmt.Sprintf("rs=%s:%s:%s ", common.Hex(c.SrcRef), common.Hex(c.DstRef), strings.Join(u, "+"))
+}
+
+// rflField runs the real removeForeignLayers (verif hook) on a copy of every node's successor
+// descriptors and renders the result for the in-Coq comparison with CopyLinks.remove_foreign_inplace:
+// rfl=<node>:<ids '+'-separated|->;...   (only nodes with successors)
+func rflField(g *dag.Graph) string {
+	var out []string
+	for _, n := range g.Nodes {
+		if len(n.Succ) == 0 {
+			continue
+		}
+		in := make([]ocispec.Descriptor, len(n.Succ))
+		for i, s := range n.Succ {
+			in[i] = g.Nodes[s].Desc
+		}
+		res := oras.VerifRemoveForeignLayers(in)
+		ids := make([]string, len(res))
+		for i, d := range res {
+			ids[i] = "?"
+			for _, m := range g.Nodes {
+				if m.Desc.Digest == d.Digest && m.Desc.MediaType == d.MediaType {
+					ids[i] = fmt.Sprint(m.ID)
+				}
+			}
+		}
+		o := strings.Join(ids, "+")
+		if o == "" {
+			o = "-"
+		}
+		out = append(out, fmt.Sprintf("%d:%s", n.ID, o))
+	}
+	if len(out) == 0 {
+		return ""
+	}
+	return "rfl=" + strings.Join(out, ";") + " "
+}
+
+// mtConst names a media type by the Go constant the code switches on ("-" = any other media type).
+var mtConst = map[string]string{
+	dag.MTDockerManifest:                            "docker.MediaTypeManifest",
+	dag.MTDockerManifestList:                        "docker.MediaTypeManifestList",
+	ocispec.MediaTypeImageManifest:                  "ocispec.MediaTypeImageManifest",
+	ocispec.MediaTypeImageIndex:                     "ocispec.MediaTypeImageIndex",
+	dag.MTArtifactManifest:                          "spec.MediaTypeArtifactManifest",
+	ocispec.MediaTypeImageLayerNonDistributable:     "ocispec.MediaTypeImageLayerNonDistributable",
+	ocispec.MediaTypeImageLayerNonDistributableGzip: "ocispec.MediaTypeImageLayerNonDistributableGzip",
+	ocispec.MediaTypeImageLayerNonDistributableZstd: "ocispec.MediaTypeImageLayerNonDistributableZstd",
+	dag.MTDockerForeignLayer:                        "docker.MediaTypeForeignLayer",
+}
+
+
+// linksField renders every node's media type and decoded link fields (generator's ground truth:
+// subject, config, layers, manifests, blobs) for the in-Coq check that the link schema regenerated
+// from content.Successors, applied to these fields, yields exactly the generator's successor list,
+// and that IsManifest / IsForeignLayer's tables give the node flags:  lk=<mt>|S<n>|C<n>|L<a+b>|M<..>|B<..>;...
+func linksField(g *dag.Graph) string {
+	var out []string
+	for _, n := range g.Nodes {
+		mt := mtConst[n.Desc.MediaType]
+		if mt == "" {
+			mt = "-"
+		}
+		rest := n.Succ
+		subj, cfg := "-", "-"
+		if n.Subject >= 0 && len(rest) > 0 {
+			subj = fmt.Sprint(rest[0])
+			rest = rest[1:]
+		}
+		var ls, ms, bs []int
+		switch n.Kind {
+		case dag.KImage, dag.KDocker:
+			if len(rest) > 0 {
+				cfg = fmt.Sprint(rest[0])
+				ls = rest[1:]
+			}
+		case dag.KIndex, dag.KDockerL:
+			ms = rest
+		case dag.KArtifact:
+			bs = rest
+		}
+		plus := func(xs []int) string {
+			if len(xs) == 0 {
+				return "-"
+			}
+			p := make([]string, len(xs))
+			for i, x := range xs {
+				p[i] = fmt.Sprint(x)
+			}
+			return strings.Join(p, "+")
+		}
+		out = append(out, fmt.Sprintf("%s|S%s|C%s|L%s|M%s|B%s", mt, subj, cfg, plus(ls), plus(ms), plus(bs)))
+	}
+	return "lk=" + strings.Join(out, ";") + " "
 }
 
 var archID = map[string]int{"": 0, "amd64": 1, "arm64": 2}
